@@ -300,7 +300,10 @@ PROPS["C12"] = dict(
         dict(name="rt", run="^TestRoundTrip$",
              quick=dict(shards=16, checks=100, timeout=600),
              thorough=dict(shards=16, checks=3000, timeout=3400)),
+        dict(name="seedcorpus", kind="plain", run="^FuzzRoundTrip$", quick=dict(shards=1, timeout=300)),
+        dict(name="fuzz", kind="fuzz", run="^FuzzRoundTrip$", thorough=dict(fuzztime="240s", timeout=600)),
     ],
+    technique="property-based testing (rapid) + native coverage-guided fuzzing; oracle = API-level round trip plus an independent decoder",
     assumptions=CLUSTER_ASSUMPTIONS + [
         "metadata and gossip payloads are kept within the packet budget of the drawn UDPBufferSize/label/encryption (a message that cannot fit a packet is never gossiped)",
         "an empty SendReliable payload may be delivered zero or one time (the stream path does not surface empty messages)",
